@@ -79,7 +79,7 @@ def env(b):
     STREAM.attrs = {'seek': MethodModel('seek', seek)}
     b.sym('stream', STREAM)
     b.bind('utils', Obj('utils', aiter_chunks=Model('aiter_chunks', lambda i, s, a, k: (
-        s.emit('aiter_chunks', stream=a[0]), iter([(s, sym.fresh(models.opaque_type('Chunks'), 'chunks'))]))[1])))
+        s.emit('aiter_chunks', stream=a[0], chunk_size=k.get('chunk_size', a[1] if len(a) > 1 else None)), iter([(s, sym.fresh(models.opaque_type('Chunks'), 'chunks'))]))[1])))
 
 
 def delete_post(prop):
@@ -121,6 +121,11 @@ def upload_stream_post(prop):
                 # C12.b2.upload_stream.rewinds
                 res.oblige(p, f'{prop}.b2.upload_stream.rewinds_on_failure[{p.value.cls}]', z3.BoolVal(bool(lk)) if not lk else
                            z3.And(sym.lift(lk[-1].data['pos'], INT).z == 0, z3.BoolVal(evs[-1] is lk[-1])))
+            for e in p.events('aiter_chunks'):
+                cs = e.data.get('chunk_size')
+                # C20: read from the caller's stream in pieces of the chunk size the command chose
+                res.oblige(p.pc_at(e), f'{prop}.b2.upload_stream.reads_in_pieces_of_chunk_size', z3.BoolVal(False) if cs is None else z3.And(
+                    sym.lift(cs, INT).z == res.builder.st.lookup('chunk_size').z, z3.BoolVal(e.data['stream'] is res.builder.st.lookup('stream'))))
             for e in p.events('http'):
                 hd = res.interp.deref(p.st, ops.resolve(p.st, e.data['kwargs']['headers']))
                 res.oblige(p.pc_at(e), f'{prop}.b2.upload_stream.declared_length_and_name', z3.And(
@@ -138,6 +143,7 @@ def download_stream_setup(b):
     HDRS.attrs = {'get': MethodModel('get', lambda i, s, a, k: iter([(s, sym.fresh(Opt(STR), 'content_length_header'))]))}
 
     def aiter_bytes(interp, st, args, kwargs):
+        st.emit('aiter_bytes', size=(args[1] if len(args) > 1 else kwargs.get('chunk_size')))
         yield st, IterSpec(n_chunks, lambda k: SV(BYTES, UF('b2_body_chunk', INT, BYTES)(k)))
 
     RESP.attrs = {'headers': sym.const(HDRS, 'hdrs'), 'aiter_bytes': MethodModel('aiter_bytes', aiter_bytes)}
@@ -185,6 +191,10 @@ def download_stream_post(prop):
                 # whatever fails once the sink has been touched (sink error, body error, expired token): back to offset 0
                 res.oblige(p, f'{prop}.b2.download_stream.rewinds_on_failure[{sig}]', z3.BoolVal(
                     lk[-1].kind == 'stream_seek') if lk[-1].kind != 'stream_seek' else sym.lift(lk[-1].data['pos'], INT).z == 0)
+            for e in p.events('aiter_bytes'):
+                sz = e.data['size']
+                res.oblige(p.pc_at(e), f'{prop}.b2.download_stream.writes_in_pieces_of_chunk_size', z3.BoolVal(False) if sz is None else
+                           sym.lift(sz, INT).z == b.st.lookup('chunk_size').z)
             if p.events('stream_write'):
                 res.oblige(p, f'{prop}.b2.download_stream.truncate_before_write[{sig}]', z3.BoolVal(
                     'stream_truncate' in kinds and kinds.index('stream_truncate') < kinds.index('stream_write')))
